@@ -204,6 +204,10 @@ def check_case(case, ctr):
 
     # (1) todict encoding vs R1
     enc = ref_encoding(case)
+    scratch = fresh.todict()
+    for key in ('context', 'lattice'):      # what is handed out is the caller's to change
+        if isinstance(scratch.get(key), list):
+            del scratch[key][:]
     d_full = fresh.todict()
     if _norm(d_full) != _norm(enc):
         bad('todict-encoding', enc, _norm(d_full))
